@@ -51,6 +51,8 @@ def cur():
 def z3num(v):
     if isinstance(v, SR):
         return v.t
+    if isinstance(v, SB):
+        return z3.If(v.t, z3.IntVal(1), z3.IntVal(0))
     if isinstance(v, bool):
         return z3.IntVal(int(v))
     if isinstance(v, int):
@@ -684,7 +686,24 @@ class Explorer:
                 return
         # stage 1: linear hypotheses only (fewer hypotheses: sound for 'unsat'); stage 2: everything
         r = None
-        if any(not is_linear(h) for h in st.pc) or not is_linear(goal):
+        if kind != "canary" and not is_linear(goal):
+            # stage 0: the goal alone, as an identity of polynomials (after division elimination and expansion)
+            try:
+                lz0 = Linearizer()
+                g0 = z3.simplify(lz0(goal), som=True, arith_lhs=True)
+                if z3.is_true(g0):
+                    r = z3.unsat
+                    s = None
+                else:
+                    s0 = z3.Solver()
+                    s0.set("timeout", 2000)
+                    s0.add(z3.Not(g0))
+                    if s0.check() == z3.unsat:
+                        r = z3.unsat
+                        s = None
+            except z3.Z3Exception:
+                r = None
+        if r is None and (any(not is_linear(h) for h in st.pc) or not is_linear(goal)):
             # abstraction: every nonlinear monomial / division becomes one fresh variable (sound for 'unsat');
             # proves whatever follows from the hypotheses by linear combination
             try:
@@ -719,7 +738,7 @@ class Explorer:
             nonlin = any(not is_linear(h) for h in st.pc) or not is_linear(goal)
             if kind == "canary" and nonlin:
                 r = z3.unknown  # vacuity of nonlinear path conditions: hinted model search / linearised refutation only
-            elif nonlin and has_quantifier(st.pc + [goal]):
+            elif nonlin:
                 # nonlinear + quantified queries can make the in-process solver ignore its timeout: run the z3 binary
                 # under a hard wall-clock limit instead (same formula, SMT-LIB text)
                 r = external_check(s, max(5, self.timeout_ms // 1000))
@@ -739,7 +758,7 @@ class Explorer:
                 witness = model_json(mdl)
             except (z3.Z3Exception, AttributeError):
                 detail = "sat (external z3 run; no model extracted)"
-        elif r == z3.unknown and st.hints and kind == "canary" and self._hinted_counterexample(st, goal) is not None:
+        elif r == z3.unknown and s is not None and st.hints and kind == "canary" and self._hinted_counterexample(st, goal) is not None:
             from .common import model_str, model_json
 
             mdl = self._hinted_counterexample(st, goal)
@@ -750,6 +769,10 @@ class Explorer:
         elif r == z3.unknown:
             from .common import cvc5_check_smt2
 
+            if s is None:
+                s = z3.Solver()
+                s.add(st.pc)
+                s.add(z3.Not(goal))
             r2 = cvc5_check_smt2(s.to_smt2(), timeout_s=max(10, self.timeout_ms // 1000))
             backend = "z3+cvc5"
             if r2 == "unsat":
